@@ -782,6 +782,15 @@ raise ValueError."""
             self._resolve_type_from_ctype(unaliased)
             if typeval.target_giname and typeval.ctype:
                 target = self.lookup_giname(typeval.target_giname)
+                # The targets of the aliases declared so far are only resolved
+                # by a later pass; resolve them along the chain now
+                alias = target
+                while isinstance(alias, ast.Alias):
+                    if not alias.target.resolved:
+                        self.resolve_type(alias.target)
+                    if not alias.target.target_giname:
+                        break
+                    alias = self.lookup_giname(alias.target.target_giname)
                 target = self.resolve_aliases(target)
                 if isinstance(target, ast.Type):
                     unaliased = target
